@@ -5,6 +5,7 @@
 // result compared with the reference definitions in c19_common.hpp.
 #include "c19_common.hpp"
 #include "c19_wrap.hpp"
+#include "c19_skip.hpp"
 #include <algorithm>
 #include <igris/buffer.h>
 #include <igris/util/string.h>
@@ -185,7 +186,7 @@ MC_INIT
         mc::more_cases(3);
     });
 
-    // ---------------------------------------------------------------- creader (memory and extent only)
+    // ---------------------------------------------------------------- creader: readline memory and extent only; skip/skipws functional
     mc::add_check("creader", [] {
         Str s = text_input("creader_readline/skip", NSIG_CR);
         if (has(s, '\n') || has(s, '\0'))
@@ -214,18 +215,7 @@ MC_INIT
             mc::outcome(small_outcome("creader lines", lines));
             w_creader_del(r);
         }
-        {
-            PL b(s);
-            CS sym(" \t\n", 1);
-            void *r = w_creader_new(b.p, b.n);
-            mc::crash_context("C19.creader_skip.memory");
-            int cnt = w_creader_skip(r, sym.p);
-            mc::crash_context("C19.harness");
-            long cur = w_creader_curpos(r);
-            if (cnt < 0 || cnt > (long)b.n || cur != cnt)
-                mc::violation("C19.creader_skip.extent", "%s: skipped %d, cursor %ld, buffer %zu", esc(s).c_str(), cnt, cur, b.n);
-            w_creader_del(r);
-        }
+        check_creader_skip(s, "", [](const Str &x) { return esc(x); });
     });
 
     // ---------------------------------------------------------------- igris_memmem: all (haystack, needle) pairs
